@@ -1147,6 +1147,8 @@ class System:
             sim.dt = opts.get("dt", 0.01)
         if "dt0" in opts:
             sim.dt = opts["dt0"]        # initial step of the adaptive integrators (far too large: forces rejected steps)
+        if "setup" in opts:
+            opts["setup"](sim)          # cross-cutting dimensions: options / callbacks applied to the base run and to every shadow
         if integ == "whfast":
             for k in ("corrector", "corrector2", "safe_mode", "kernel", "keep_unsynchronized"):
                 if k in opts:
@@ -1225,19 +1227,27 @@ def shadow_case(sy, integ, T, keys, com, tp, opts):
     def finish(sim):
         if com:
             sim.move_to_com()
-        sim.integrate(T, exact_finish_time=1)
+        if "history" in opts:
+            return opts["history"](sim, T)      # may return another Simulation object (copy / restored)
+        sim.integrate(T, exact_finish_time=opts.get("exact_finish_time", 1))
+        return sim
 
     def run(sh):
         sim = sy.build(integ, sh, opts)
-        finish(sim)
-        return state_of(sim, idxs)
+        return state_of(finish(sim), idxs)
+
+    def read_var(ret, index):
+        out = []
+        for i_ in slots:
+            p = ret.particles[index + i_]
+            out += [p.x, p.y, p.z, p.vx, p.vy, p.vz]
+        return out
     sim = sy.build(integ, None, opts)
     if len(keys) == 1:
         (i, par), = keys
         v = sim.add_variation(testparticle=tparg)
         init_first(v, slot(i), i, par)
-        finish(sim)
-        var = var_state(v, slots)
+        var = read_var(finish(sim), v.index)
         h = step_for(par, 1) * shrink
 
         def D(f):
@@ -1252,8 +1262,7 @@ def shadow_case(sy, integ, T, keys, com, tp, opts):
         init_first(vb, slot(j), j, p2)
         if i == j and is_element(p1) and is_element(p2):
             vab.vary(i, p1, p2)
-        finish(sim)
-        var = var_state(vab, slots)
+        var = read_var(finish(sim), vab.index)
         h1, h2 = step_for(p1, 2) * shrink, step_for(p2, 2) * shrink
         zero = run({}) if (i, p1) == (j, p2) else None
 
